@@ -96,7 +96,15 @@ m={
  },
  "engines": [
    {"name": "ptv", "path": "/verif/harness", "serves_properties": sorted(claimed.keys()),
-    "kind_free_text": "Rust harness: proptest TestRunner (fixed seeds, sharded over 16 threads), BTreeMap reference model, shrinking to JSON replay files, evidence writer"}
+    "kind_free_text": "Rust harness: proptest TestRunner (fixed seeds, sharded over 16 threads), BTreeMap reference model and u128 bit-arithmetic oracles, history interpreter for PrefixMap (two value types) and PrefixSet, shrinking to JSON replay files, evidence writer, known-findings protocol"},
+   {"name": "ptv-bfs", "path": "/verif/harness/src/bfs.rs", "serves_properties": ["C01","C02","C03","C04","C09","C10","C15","C16","C20"],
+    "kind_free_text": "bounded-exhaustive breadth-first enumeration of observable states on (u8,u8) with prefix lengths <= 2 (to fixpoint) and <= 3 (depth/state cap), all per-step oracles on every transition"},
+   {"name": "ptv-progs", "path": "/verif/harness/src/progs.rs", "serves_properties": ["C14"],
+    "kind_free_text": "generated client programs (borrow conflicts, use after move, escapes, threads, Clone/Copy, auto-trait grid) compiled with cargo check; conflict programs must be rejected, benign siblings accepted"},
+   {"name": "ptv-miri", "path": "/verif/harness/src/miri.rs", "serves_properties": ["C14"],
+    "kind_free_text": "thorough tier: deterministic split-forest / thread cases under cargo +nightly miri (3 schedules seeds; all operations without borrow tracking, get_mut-only subset with Stacked Borrows)"},
+   {"name": "ptv-fuzz", "path": "/verif/fuzz", "serves_properties": ["C01","C05"],
+    "kind_free_text": "thorough tier: cargo-fuzz/libFuzzer targets `ops` and `setops` decoding bytes into the same cases and running the same oracles (few-types build); crash artifacts are converted into JSON replays"}
  ],
  "checks": checks,
  "not_applicable": [{"property_id": k, "reason": v} for k,v in sorted(planned.items())],
